@@ -178,6 +178,26 @@ def _install():
                 return "".join(map(chr, cps))
             return LazyIntSymbolicStr(cps)
 
+    # ---- 4b. ord() of a one-character slice whose bounds are symbolic: the stock patch indexes the code-point view with
+    #          tracing off ("Numeric operation on symbolic while not tracing"); index it with tracing on
+    stock_ord = core._PATCH_REGISTRATIONS[ord]
+
+    def p_ord(c):
+        with NoTracing():
+            lazy = isinstance(c, LazyIntSymbolicStr)
+        if not lazy:
+            if len(c) != 1:
+                raise TypeError
+            rc = realize(c)
+            with NoTracing():
+                return ord(rc)
+        if len(c) != 1:
+            raise TypeError
+        with NoTracing():
+            cps = c._codepoints
+        return cps[0]
+    core._PATCH_REGISTRATIONS[ord] = p_ord
+
     # ---- 5. pregex modules: _re shim (findall realises), flattening of pattern text ---------------------
     import pregex.core.pre as pre
     import pregex.core.classes as classes
